@@ -16,9 +16,12 @@ Record op := Op { ocre : bool; oidx : index }.
    CZero          S.Zero
    CDelta p q     KroneckerDelta(p_idx, q_idx)
    CDelta2 p q sp KroneckerDelta(p_idx, q_idx) * KroneckerDelta(q_idx, x)
-                  with x = Index('a', above_fermi=True) (sp = Virt) or
-                  Index('i', below_fermi=True) (sp = Occ): a new index that
-                  occurs nowhere else *)
+                  with x = Indices().get_generic_indices(virt=1)[("virt","")][0]
+                  (sp = Virt) resp. (occ=1)[("occ","")][0] (sp = Occ): a
+                  uniquely named index of the registry (never handed out
+                  before) that occurs nowhere else; its name is chosen by the
+                  registry at run time, the model therefore records its space
+                  only and sums it on its own delta (cres_val) *)
 Inductive cres :=
 | CZero
 | CDelta (p q : index)
@@ -208,7 +211,7 @@ Definition wicks_groups (gs : list ogroup) : list wterm :=
 (* ---------- support for the per-run ties (harness/props/c01.py) ---------- *)
 (* tie T: the table translated from the source of _contraction returns, per
    case, None (S.Zero) or the product of KroneckerDelta(x, y) with
-   x, y in {p_idx, q_idx, fresh index of a space} *)
+   x, y in {p_idx, q_idx, new generic registry index of a space} *)
 Inductive darg := AP | AQ | AFresh (sp : space).
 Definition gres := option (list (darg * darg)).
 Definition darg_eqb (a b : darg) : bool :=
